@@ -286,6 +286,7 @@ type Exec struct {
 	pathIDs       map[string]int
 	loopCache     map[*ssa.Function]map[int]*loopInfo
 	specErrors    []string
+	seenEvents    map[string]bool // names of direct-level events seen on any path
 	top           *topCtx
 	usedContracts map[string]bool
 	modelled      map[string]bool
